@@ -1157,11 +1157,13 @@ def seq_nth(ft, src, depth=0):
     if depth > 8:
         return None
     x = src
-    while x[0] in ("ref", "deref"):
-        x = x[2] if x[0] == "ref" else x[1]
+    while x[0] in ("ref", "deref") or (x[0] == "cast" and x[1] == "PointerCoercion"):
+        x = x[2] if x[0] in ("ref", "cast") else x[1]
     if x[0] == "agg" and isinstance(x[2], str) and x[2].startswith("std::ops::Range::") and len(x[3]) == 2:
         a, b = x[3]
         return ("bin", "Add", a, KSYM), ("bin", "Sub", b, a)
+    if x[0] in ("promoted", "static") or (x[0] == "const" and len(x) > 1 and x[1] == "named"):
+        return ("elem", strip_site(x), KSYM), None          # a constant table borrowed as a slice
     if x[0] == "call" and isinstance(x[1], str) and x[2]:
         short = x[1].split("::")[-1]
         if short in ("into_iter", "iter", "iter_mut", "copied", "cloned", "by_ref", "as_slice", "deref"):
